@@ -204,6 +204,15 @@ class Model(object):
         self.ar = {}
         self.fbuf = bytearray(self.reclen)
 
+    def snapshot(self):
+        """Variables of the model (slots are never modified in place, the FIELD buffer is)."""
+        return (dict(self.sc), [(k, v['d'], dict(v['e'])) for k, v in self.ar.items()], bytes(self.fbuf))
+
+    def restore(self, snap):
+        self.sc = dict(snap[0])
+        self.ar = {k: {'d': d, 'e': dict(e)} for k, d, e in snap[1]}
+        self.fbuf = bytearray(snap[2])
+
     # -- slots ------------------------------------------------------------
 
     def sval(self, slot):
@@ -666,9 +675,6 @@ class Planner(object):
     def p_swap(self, op, p):
         m = self.m
         x, y = op['a'], op['b']
-        if x['n'][-1] != y['n'][-1]:
-            p.skip = 'type'
-            return
         for r in (x, y):
             # unspecified: SWAP with a variable that was never assigned
             if r['i'] is None:
@@ -679,6 +685,11 @@ class Planner(object):
                 p.skip = 'swap-unassigned'
                 return
         p.stmt = 'SWAP %s,%s' % (ref_txt(x), ref_txt(y))
+        if x['n'][-1] != y['n'][-1]:
+            # two existing variables of different types: Type mismatch, nothing is swapped
+            p.ctx.errs.add(13)
+            p.commit = lambda: None
+            return
         p.touched = [x, y]
 
         def commit():
@@ -701,6 +712,9 @@ class Planner(object):
             c.errs.add(9)
         if not c.errs:
             c.newrec += rec_array(name, dims, m.base)
+            if c.newrec > 65535:
+                # no data segment holds it, whatever the memory size of the run
+                c.errs.add(7)
         p.touched = []
         p.commit = lambda: m.make_array(name, dims)
 
@@ -801,6 +815,104 @@ class Planner(object):
         if op['n'] not in self.m.ar:
             p.skip = 'no-array'
         p.stmt = ''
+
+
+###############################################################################
+# compound statements: several units of work in one direct line, where a later unit may fail after
+# earlier ones have done theirs (ERASE a,b,c / DIM a(..),b(..) / stmt:stmt:stmt)
+
+COMPOUND = ('merase', 'mdim', 'line')
+PARTKINDS = ('let', 'mid', 'lset', 'swap', 'dim', 'erase', 'merase', 'mdim')
+
+
+def expand(part):
+    """-> (units, tail): the simple ops a part consists of and text after them that cannot be parsed."""
+    k = part['op']
+    if k == 'merase':
+        return [{'op': 'erase', 'n': n} for n in part['n']], part.get('tail', '')
+    if k == 'mdim':
+        return [{'op': 'dim', 'n': n, 'd': d} for n, d in part['a']], part.get('tail', '')
+    return [part], ''
+
+
+def part_text(part, plans):
+    k = part['op']
+    if k == 'merase':
+        return ('ERASE ' + ','.join(part['n'])).rstrip() + part.get('tail', '')
+    if k == 'mdim':
+        return ('DIM ' + ','.join('%s(%s)' % (n, ','.join(str(x) for x in d)) for n, d in part['a'])).rstrip() + part.get('tail', '')
+    return plans[0].stmt
+
+
+class Comp(object):
+    """
+    The units of a compound statement planned one after the other against the evolving model.
+    plans[k] was planned in states[k] (the model after k units); the last plan is the failing one if
+    fail is a Plan; fail == 'stx' if the text after the last unit cannot be parsed (Syntax error after
+    all units have run). GW-BASIC and PC-BASIC both execute such lists as they parse them, so the
+    units before the failing one have taken effect.
+    """
+
+    def __init__(self):
+        self.text = None
+        self.plans = []
+        self.states = []
+        self.fail = None
+        self.names = []      # every array named in the statement
+
+
+def plan_compound(m, op):
+    """Plans the statement and leaves the model in the state the statement is modelled to leave."""
+    comp = Comp()
+    comp.states.append(m.snapshot())
+    parts = op.get('parts', []) if op['op'] == 'line' else [op]
+    texts = []
+    for part in parts:
+        if not isinstance(part, dict) or part.get('op') not in PARTKINDS:
+            continue
+        units, tail = expand(part)
+        if part['op'] in ('merase', 'mdim') and not units:
+            tail = tail or ' '
+        plans, states = [], []
+        failed = None
+        usable = True
+        for u in units:
+            pl = Planner(m).plan(u)
+            if pl.skip or pl.alts or pl.lenient or pl.ctx.opt or pl.commit is None:
+                # unspecified corners stay with the single statements
+                usable = False
+                break
+            plans.append(pl)
+            if pl.ctx.errs:
+                failed = pl
+                break
+            pl.commit()
+            states.append(m.snapshot())
+        text = part_text(part, plans) if usable else None
+        if not usable or len(':'.join(texts + [text])) > MAXLINE:
+            m.restore(comp.states[-1])
+            if usable:
+                break
+            continue
+        texts.append(text)
+        comp.plans.extend(plans)
+        comp.states.extend(states)
+        for u in units:
+            if u['op'] in ('dim', 'erase') and u['n'] not in comp.names:
+                comp.names.append(u['n'])
+        for pl in plans:
+            for n in sorted(pl.ctx.auto):
+                if n not in comp.names:
+                    comp.names.append(n)
+        if failed is not None:
+            comp.fail = failed
+            break
+        if tail:
+            comp.fail = 'stx'
+            break
+    if texts:
+        comp.text = ':'.join(texts)
+    return comp
 
 
 ###############################################################################
@@ -1068,9 +1180,12 @@ class Exec(object):
         self.opno = i
         kind = op['op']
         self.last_kind = kind
-        plan = Planner(m).plan(op)
         fb = m.free_bounds()
         self._state = (kind, bucket(m.n_live()), bucket(fb[0]) if fb else -1, bucket(self.gc['gcs']), min(3, len(m.ar)))
+        if kind in COMPOUND:
+            self.do_compound(op)
+            return
+        plan = Planner(m).plan(op)
         if plan.skip:
             run.probe('skipped:%s:%s' % (kind, plan.skip))
             return
@@ -1087,10 +1202,138 @@ class Exec(object):
             self.judge(op, plan, r)
         if self.stop:
             return
-        self.readback(plan)
+        audit = bool(op.get('audit'))
+        self.readback(plan, full=audit)
         if self.stop:
             return
-        self.peeks(plan)
+        self.peeks(plan, full=audit, deep=audit)
+
+    # -- statements that may fail after part of their work ----------------------
+
+    def matches(self, names):
+        """Do all values and the existence of the arrays `names` agree with the model (no verdict)?"""
+        m, d = self.m, self.d
+        for name in m.sc:
+            if d.get(b(name)) != m.get_value({'n': name, 'i': None}):
+                return False
+        for name in m.ar:
+            if d.get(b(name + '(')) != nested(m, name):
+                return False
+        for name in names:
+            if name not in m.ar and d.get(b(name + '(')):
+                return False
+        return True
+
+    def do_compound(self, op):
+        """
+        ERASE/DIM lists and multi-statement lines run unit by unit: the units before a failing one have
+        taken effect, the failing one and those behind it have not. When the line runs out of memory the
+        failing unit is not known beforehand: the prefix is the one whose modelled state the engine shows.
+        Whatever happened, every surviving variable must pass the complete audit afterwards.
+        """
+        m, run = self.m, self.run
+        kind = op['op']
+        comp = plan_compound(m, op)
+        if comp.text is None:
+            m.restore(comp.states[0])
+            run.probe('skipped:%s:nothing-to-run' % kind)
+            return
+        plan = Plan(kind)
+        plan.stmt = comp.text
+        r = self.d.exec(b(comp.text))
+        err = r.err
+        done = len(comp.states) - 1
+        fail = comp.fail
+        fkind = 'syntax' if fail == 'stx' else (fail.kind if fail is not None else 'none')
+        want = set() if fail is None else ({2} if fail == 'stx' else set(fail.ctx.errs))
+        props = ('C12', self.prop) if fkind in ('dim', 'erase') else (self.prop,)
+        outcome = 'ok' if err is None else ('oom' if err in (7, 14) else 'err')
+        run.state(*(self._state + (outcome, fkind, min(3, done))))
+        if err is None:
+            if fail is not None:
+                self.violate(props, 'missing-error:%s:%s:expected-%s' % (kind, fkind, '/'.join(str(x) for x in sorted(want))),
+                             '%r succeeded, model expects error %s after %d units of work; %s' % (
+                                 comp.text, sorted(want), done, self.history()))
+                self.stop = True
+                return
+            run.probe('stmt-ok')
+        else:
+            self.had_error = True
+            if len(r.errs) > 1 or r.text.strip():
+                self.violate(self.prop, 'output-from-silent-statement:%s' % kind, '%r -> %r' % (comp.text, r))
+            if err in (7, 14):
+                cands = []
+                for k in range(done, -1, -1):
+                    m.restore(comp.states[k])
+                    if self.matches(comp.names):
+                        cands.append(k)
+                if not cands:
+                    m.restore(comp.states[done])
+                    self.violate(props, 'partial-effect:%s:state-is-no-prefix-of-the-units' % kind,
+                                 '%r -> error %d; the variables agree with the reference after none of the first 0..%d units; %s' % (
+                                     comp.text, err, done, self.history()))
+                    self.stop = True
+                    return
+                done = cands[0]
+                if done == len(comp.states) - 1 and err in want:
+                    run.probe('stmt-error-as-modelled')
+                else:
+                    legit = False
+                    for k in cands:
+                        m.restore(comp.states[k])
+                        if k < len(comp.plans) and m.tight(comp.plans[k].need):
+                            legit = True
+                            done = k
+                            break
+                    if not legit:
+                        done = cands[0]
+                        m.restore(comp.states[done])
+                        legit = self.oom_is_legit(max([pl.need for pl in comp.plans[done:]] or [0]))
+                    if legit:
+                        run.probe('oom-legit')
+                    else:
+                        fb = m.free_bounds()
+                        self.violate('C10', 'spurious-out-of-memory:%s:err%d' % (kind, err),
+                                     '%r -> error %d after %d units although the model has at least %d bytes free after '
+                                     'collection; %s' % (comp.text, err, done, fb[0], self.history()))
+                m.restore(comp.states[done])
+            elif err in want and fail == 'stx':
+                # unspecified: whether a list is checked for syntax before its first unit runs; GW-BASIC and
+                # PC-BASIC run the units as they parse them. Any prefix of the units is accepted.
+                for k in range(done, -1, -1):
+                    m.restore(comp.states[k])
+                    if self.matches(comp.names):
+                        done = k
+                        break
+                else:
+                    m.restore(comp.states[done])
+                    self.violate(props, 'partial-effect:%s:state-is-no-prefix-of-the-units' % kind,
+                                 '%r -> error %d; the variables agree with the reference after none of the first 0..%d units; %s' % (
+                                     comp.text, err, done, self.history()))
+                    self.stop = True
+                    return
+                run.probe('stmt-error-as-modelled')
+            elif err in want:
+                run.probe('stmt-error-as-modelled')
+            else:
+                self.violate(props, 'unexpected-error:%s:%s:err%d' % (kind, fkind, err),
+                             '%r -> %r, model expects %s after %d units of work; %s' % (
+                                 comp.text, r, ('error ' + str(sorted(want))) if want else 'success', done, self.history()))
+                self.stop = True
+                return
+            if done:
+                run.probe('partial-effect:%s' % kind)
+        for i, pl in enumerate(comp.plans[:done + 1]):
+            self.resync(pl, failed=(i == done))
+            if i < done:
+                plan.touched.extend(pl.touched)
+        if self.stop:
+            return
+        audit = (err is not None and done > 0) or bool(op.get('audit'))
+        self.readback(plan, full=audit)
+        if self.stop:
+            return
+        self.peeks(plan, full=audit, deep=audit)
 
     def judge(self, op, plan, r):
         m, run = self.m, self.run
@@ -1465,7 +1708,7 @@ class Exec(object):
             out = [t + [i] for t in out for i in range(m.base, d + 1)]
         return [{'n': name, 'i': t} for t in out]
 
-    def peeks(self, plan, full=False):
+    def peeks(self, plan, full=False, deep=False):
         m = self.m
         refs = []
         if plan is not None:
@@ -1482,7 +1725,16 @@ class Exec(object):
             refs.extend(cand)
             # every element of one small array: pairwise distinct addresses (C12 through C11's eyes)
             small = [n for n, a in m.ar.items() if n_elems(a['d'], m.base) <= 40]
-            if small:
+            if small and deep:
+                # the complete audit: every element of every small array (up to 160 elements)
+                left = 160
+                for k in range(len(small)):
+                    name = small[(self.opno + k) % len(small)]
+                    n = n_elems(m.ar[name]['d'], m.base)
+                    if n <= left:
+                        refs.extend(self.all_elements(name))
+                        left -= n
+            elif small:
                 refs.extend(self.all_elements(small[self.opno % len(small)]))
         elif cand:
             for _ in range(self.peek_n):
@@ -1800,6 +2052,9 @@ class Gen(object):
         self.anum = [gen_name(rng, rng.choice('%%!#'), set(), bases) for _ in range(rng.randint(1, 3))]
         self.astr = list(dict.fromkeys(self.astr))
         self.anum = list(dict.fromkeys(self.anum))
+        # arrays that only statement lists and the DIM after a half-done statement use
+        self.xarr = [gen_name(rng, rng.choice('%!#$'), set(self.astr + self.anum), bases) for _ in range(2)]
+        self.xarr = [n for n in dict.fromkeys(self.xarr)]
         self.used = used
         self.bases = bases
 
@@ -1993,11 +2248,14 @@ class Gen(object):
         n_ops = rng.randint(12, 55) if tier == 'quick' else rng.randint(40, 400)
         weights = {
             'C10': [('lets', 40), ('letn', 6), ('mid', 8), ('lset', 6), ('swap', 6), ('probe', 7), ('dim', 4),
-                    ('erase', 3), ('fre', 9), ('clear', 2), ('field', 4), ('fill', 1), ('optbase', 0.5)],
+                    ('erase', 3), ('fre', 9), ('clear', 2), ('field', 4), ('fill', 1), ('optbase', 0.5),
+                    ('line', 3), ('merase', 1), ('mdim', 1)],
             'C11': [('lets', 20), ('letn', 20), ('mid', 4), ('lset', 4), ('swap', 10), ('probe', 2), ('dim', 10),
-                    ('erase', 8), ('fre', 3), ('clear', 2), ('field', 4), ('fill', 3), ('optbase', 0.5)],
+                    ('erase', 8), ('fre', 3), ('clear', 2), ('field', 4), ('fill', 3), ('optbase', 0.5),
+                    ('line', 5), ('merase', 6), ('mdim', 4)],
             'C12': [('lets', 6), ('letn', 6), ('elem', 30), ('swap', 5), ('dim', 16), ('erase', 9), ('fre', 2),
-                    ('clear', 3), ('fill', 12), ('optbase', 4), ('probe', 1), ('mid', 1), ('lset', 1), ('field', 1)],
+                    ('clear', 3), ('fill', 12), ('optbase', 4), ('probe', 1), ('mid', 1), ('lset', 1), ('field', 1),
+                    ('line', 2), ('merase', 4), ('mdim', 5)],
         }[prop]
         kinds = [k for k, _ in weights]
         wts = [x for _, x in weights]
@@ -2010,10 +2268,131 @@ class Gen(object):
                 continue
             ops.append(op)
             # follow the reference model assuming the statement does not run out of memory
+            if op['op'] in COMPOUND:
+                comp = plan_compound(m, op)
+                if comp.fail is not None and len(comp.states) > 1 and rng.random() < 0.8:
+                    # part of the work was done: a new array must find room of its own afterwards
+                    for op2 in self.follow_up(m):
+                        ops.append(op2)
+                        p = pl.plan(op2)
+                        if not p.skip and not p.ctx.errs and p.commit is not None:
+                            p.commit()
+                continue
             p = pl.plan(op)
             if not p.skip and not p.ctx.errs and p.commit is not None:
                 p.commit()
         return {'machine': NAME, 'prop': prop, 'cfg': cfg, 'ops': ops}
+
+    # statements that do part of their work ----------------------------------
+
+    def small_dims(self, name):
+        rng = self.rng
+        rank = rng.choice([1, 1, 1, 2, 2, 3])
+        if rank == 1:
+            return [rng.choice([1, 2, 3, 5, 10, 17, rng.randint(1, 30)])]
+        return [rng.randint(1, 5 if rank == 2 else 3) for _ in range(rank)]
+
+    def follow_up(self, m):
+        rng = self.rng
+        fresh = [n for n in self.xarr + self.anum + self.astr if n not in m.ar]
+        if not fresh:
+            return []
+        name = rng.choice(fresh)
+        out = [{'op': 'dim', 'n': name, 'd': self.small_dims(name), 'audit': True}]
+        if rng.random() < 0.7:
+            out.append({'op': 'fill', 'n': name, 'salt': rng.randint(1, 20000), 'audit': True})
+        return out
+
+    def gen_merase(self, m):
+        rng = self.rng
+        allarr = self.astr + self.anum + self.xarr
+        names = []
+        for _ in range(rng.choice([1, 2, 2, 2, 3, 3, 4])):
+            r = rng.random()
+            live = [n for n in m.ar if n not in names]
+            if r < 0.62 and live:
+                names.append(rng.choice(live))
+            elif r < 0.72 and names:
+                names.append(rng.choice(names))
+            elif r < 0.82:
+                names.append(rng.choice(self.snum + self.sstr))
+            elif r < 0.94:
+                names.append(rng.choice(allarr))
+            else:
+                names.append('ZZ9' + rng.choice('%!#$'))
+        r = rng.random()
+        tail = '' if r < 0.8 else (',' if r < 0.9 else rng.choice(['(1)', ',,']))
+        return {'op': 'merase', 'n': names, 'tail': tail}
+
+    def gen_mdim(self, m):
+        rng = self.rng
+        allarr = self.astr + self.anum + self.xarr
+        items = []
+        for _ in range(rng.choice([1, 2, 2, 3, 3, 4])):
+            taken = [n for n, _ in items]
+            fresh = [n for n in allarr if n not in m.ar and n not in taken]
+            r = rng.random()
+            if r < 0.6 and fresh:
+                name = rng.choice(fresh)
+            elif r < 0.8 and m.ar:
+                name = rng.choice(list(m.ar))
+            elif r < 0.88 and taken:
+                name = rng.choice(taken)
+            else:
+                name = rng.choice(allarr)
+            r = rng.random()
+            if r < 0.1:
+                dims = rng.choice([[32767], [200, 200, 200], [255, 255, 3]])
+            elif r < 0.14:
+                dims = rng.choice([[-1], [2, -1]])
+            elif r < 0.2:
+                dims = [0] * rng.choice([1, 2])
+            else:
+                dims = self.small_dims(name)
+            items.append([name, dims])
+        return {'op': 'mdim', 'a': items, 'tail': '' if rng.random() < 0.9 else ','}
+
+    def fail_part(self, m):
+        """A statement that fails in most states without doing anything."""
+        rng = self.rng
+        allarr = self.astr + self.anum + self.xarr
+        r = rng.random()
+        if r < 0.2:
+            gone = [n for n in allarr + self.snum if n not in m.ar]
+            return {'op': 'erase', 'n': rng.choice(gone) if gone else 'ZZ9%'}
+        if r < 0.35 and m.ar:
+            name = rng.choice(list(m.ar))
+            return {'op': 'dim', 'n': name, 'd': self.small_dims(name)}
+        if r < 0.55:
+            names = list(m.sc)
+            if names:
+                x = rng.choice(names)
+                other = [n for n in names if n[-1] != x[-1]]
+                if other:
+                    return {'op': 'swap', 'a': {'n': x, 'i': None}, 'b': {'n': rng.choice(other), 'i': None}}
+            return {'op': 'swap', 'a': self.sref(m), 'b': self.nref(m)}
+        if r < 0.7:
+            return {'op': 'let', 't': self.nref(m), 'e': {'k': 'asc', 's': {'k': 'lit', 'v': ''}}}
+        if r < 0.8:
+            return {'op': 'let', 't': self.sref(m), 'e': {'k': 'chr', 'c': rng.choice([256, -1])}}
+        if r < 0.9:
+            return {'op': 'let', 't': self.nref(m, elem_p=1.0, oob_p=1.0), 'e': {'k': 'int', 'v': rng.randint(-9, 9)}}
+        ints = [n for n in self.snum if n[-1] == '%']
+        if ints:
+            return {'op': 'let', 't': {'n': rng.choice(ints), 'i': None}, 'e': {'k': 'int', 'v': rng.choice([32768, -32769, 40000])}}
+        return {'op': 'let', 't': self.nref(m), 'e': {'k': 'asc', 's': {'k': 'lit', 'v': ''}}}
+
+    def gen_line(self, m, floor):
+        rng = self.rng
+        kinds = ['lets', 'letn', 'letn', 'swap', 'dim', 'erase', 'merase', 'mdim', 'mid', 'lset']
+        parts = []
+        for _ in range(rng.choice([2, 2, 3, 3, 4])):
+            op = self.make_op(rng.choice(kinds), m, floor)
+            if op is not None:
+                parts.append(op)
+        if rng.random() < 0.75:
+            parts.insert(rng.randint(min(1, len(parts)), len(parts)), self.fail_part(m))
+        return {'op': 'line', 'parts': parts}
 
     def make_op(self, kind, m, floor):
         rng = self.rng
@@ -2105,6 +2484,12 @@ class Gen(object):
             return {'op': 'fill', 'n': rng.choice(names), 'salt': rng.randint(1, 20000)}
         if kind == 'optbase':
             return {'op': 'optbase', 'b': rng.choice([0, 1])}
+        if kind == 'merase':
+            return self.gen_merase(m)
+        if kind == 'mdim':
+            return self.gen_mdim(m)
+        if kind == 'line':
+            return self.gen_line(m, floor)
         raise K.HarnessError(kind)
 
 
@@ -2128,6 +2513,18 @@ def simplify(cfg, ops):
     if cfg.get('base') is not None:
         yield dict(cfg, base=None), ops
     for i, op in enumerate(ops):
+        # statement lists: fewer parts / names, a single part instead of the line
+        for key in {'line': ('parts',), 'merase': ('n',), 'mdim': ('a',)}.get(op['op'], ()):
+            lst = op.get(key, [])
+            if op['op'] == 'line' and len(lst) == 1:
+                yield cfg, ops[:i] + [lst[0]] + ops[i + 1:]
+            if len(lst) > 1:
+                for j in range(len(lst)):
+                    yield cfg, ops[:i] + [dict(op, **{key: lst[:j] + lst[j + 1:]})] + ops[i + 1:]
+        if op.get('tail'):
+            yield cfg, ops[:i] + [dict(op, tail='')] + ops[i + 1:]
+        if op.get('audit'):
+            yield cfg, ops[:i] + [{k: v for k, v in op.items() if k != 'audit'}] + ops[i + 1:]
         e = op.get('e')
         if isinstance(e, dict):
             for sub in ('a', 'b', 's'):
